@@ -224,10 +224,14 @@ def expand (x : Tensor) (shape : List Int) : R Tensor := do
   let s ← bshapeR x.shape (shape.map Int.toNat)
   pure (broadcastTo x s)
 
+/-- `Tile` with natural repeat counts: element `idx` of the result is `x[idx mod shape]`. -/
+def tileCore (x : Tensor) (reps : List Nat) : Tensor :=
+  build (List.zipWith (fun d r => d * r) x.shape reps)
+    (fun idx => x.get (List.zipWith (fun i d => i % d) idx x.shape))
+
 def tile (x : Tensor) (reps : List Int) : R Tensor := do
   guardR (reps.length == x.rank && reps.all (· ≥ 0))
-  let s := List.zipWith (fun d r => d * r.toNat) x.shape reps
-  pure (build s (fun idx => x.get (List.zipWith (fun i d => i % d) idx x.shape)))
+  pure (tileCore x (reps.map Int.toNat))
 
 /-! ## Slice -/
 
@@ -428,14 +432,19 @@ def argReduce (isMax : Bool) (x : Tensor) (axis : Int) (keepdims selectLast : Bo
   reduce (fun vs => (argBest (if isMax then (fun a b => decide (a > b)) else (fun a b => decide (a < b)))
     selectLast vs).map Int.ofNat) x (some [axis]) keepdims false
 
-def cumsum (x : Tensor) (axis : Int) (exclusive reverse : Bool) : R Tensor := do
-  let ax ← normAxis x.rank axis
+/-- `CumSum` along the (normalised) axis `ax`: element `idx` sums `x[idx with ax := j]` over the `j`
+before (`j ≤ i`, or `j < i` if exclusive) resp. after (`reverse`) `i = idx[ax]`. -/
+def cumsumCore (x : Tensor) (ax : Nat) (exclusive reverse : Bool) : Tensor :=
   let dim := getN x.shape ax
-  pure (build x.shape (fun idx =>
+  build x.shape (fun idx =>
     let i := getN idx ax
     sumI (((List.range dim).filter (fun j =>
       if reverse then (if exclusive then j > i else j ≥ i) else (if exclusive then j < i else j ≤ i))).map
-        (fun j => x.get (withAt idx ax j)))))
+        (fun j => x.get (withAt idx ax j))))
+
+def cumsum (x : Tensor) (axis : Int) (exclusive reverse : Bool) : R Tensor := do
+  let ax ← normAxis x.rank axis
+  pure (cumsumCore x ax exclusive reverse)
 
 /-! ## Pad -/
 
